@@ -23,6 +23,15 @@ fn main() {
     }
     std::panic::set_hook(Box::new(|_| {}));
     let args: Vec<String> = std::env::args().collect();
+    if args.get(1).map(|s| s.as_str()) == Some("--handshake-stall") {
+        // C13, rustls half: a peer that stalls during the TLS handshake, only the read timeout set
+        let v = handshake_stall_cells();
+        for (sig, what) in &v {
+            println!("{}", json!({"t": "v", "sig": sig, "what": what, "case": {"engine": "c13", "rustls_handshake_stall": true}, "rank": 0}));
+        }
+        println!("{}", json!({"t": "done", "n": 4}));
+        return;
+    }
     if args.get(1).map(|s| s.as_str()) == Some("--wrong-key") {
         let v = wrong_key_cells();
         println!("wrong-key cells: {v:?}");
@@ -153,6 +162,61 @@ fn wrong_key_cells() -> Vec<(String, String)> {
             };
             out.push((sig.to_string(), format!("[rustls] certificate {cert}.crt, handshake key {key}.key, accept_invalid_hostnames {aih}, root added: {why} ({res:?})")));
         }
+    }
+    out
+}
+
+fn handshake_stall_cells() -> Vec<(String, String)> {
+    use std::io::{Read, Write};
+    let mut out = Vec::new();
+    for (tunnel, overall) in [(false, false), (true, false), (false, true), (true, true)] {
+        let l = std::net::TcpListener::bind("127.0.0.1:0").unwrap();
+        let port = l.local_addr().unwrap().port();
+        let server = std::thread::spawn(move || {
+            if let Ok((mut s, _)) = l.accept() {
+                let _ = s.set_read_timeout(Some(std::time::Duration::from_secs(6)));
+                if tunnel {
+                    let mut buf = [0u8; 1024];
+                    let _ = s.read(&mut buf);
+                    let _ = s.write_all(b"HTTP/1.1 200 Connection established\r\n\r\n");
+                }
+                // never answer the ClientHello; hold the connection for a while
+                let mut sink = [0u8; 4096];
+                let t0 = std::time::Instant::now();
+                while t0.elapsed() < std::time::Duration::from_secs(6) {
+                    match s.read(&mut sink) {
+                        Ok(0) => break,
+                        _ => {}
+                    }
+                }
+            }
+        });
+        let t0 = std::time::Instant::now();
+        let res = common::guarded(|| {
+            let mut rb = if tunnel {
+                attohttpc::get("https://origin.invalid/x").proxy_settings(
+                    attohttpc::ProxySettings::builder().https_proxy(url::Url::parse(&format!("http://127.0.0.1:{port}")).unwrap()).build(),
+                )
+            } else {
+                attohttpc::get(format!("https://127.0.0.1:{port}/x")).proxy_settings(attohttpc::ProxySettings::builder().build())
+            };
+            rb = rb.connect_timeout(std::time::Duration::from_secs(5));
+            rb = if overall {
+                rb.timeout(std::time::Duration::from_millis(600)).read_timeout(std::time::Duration::from_secs(20))
+            } else {
+                rb.read_timeout(std::time::Duration::from_millis(300))
+            };
+            rb.send().map(|_| ())
+        });
+        let el = t0.elapsed();
+        let bound = std::time::Duration::from_millis(if overall { 2600 } else { 2300 });
+        let name = format!("{}-handshake-no-reply:{}", if tunnel { "tunnel" } else { "tls" }, if overall { "overall-timeout" } else { "read-timeout-only" });
+        if el > bound {
+            out.push(("C13:phase-not-bounded".to_string(), format!("[rustls] phase {name}: the call returned after {el:?}, bound {bound:?} ({res:?})")));
+        } else if !matches!(res, Ok(Err(_))) {
+            out.push(("C13:stalled-exchange-reported-ok".to_string(), format!("[rustls] phase {name}: {res:?}")));
+        }
+        drop(server);
     }
     out
 }
